@@ -18,6 +18,9 @@ type retSpec struct {
 	// resolved[i]: what cap-table entry i is
 	pcaps []*peerCap    // for senderHosted / senderPromise entries
 	cexps []*connExport // for receiverHosted entries
+	// clocals: the Conn-side capability each receiverHosted entry named when
+	// the Return was built
+	clocals []*rpcbench.LocalCap
 }
 
 // stampOf finds the stamp of the event of the given kind carrying exactly
@@ -374,8 +377,8 @@ func (s *solo) expectedResultSrcs(q *peerQ, m *rpcbench.WireMsg) []capSrc {
 					return nil
 				}
 			case "receiverHosted":
-				if ce := s.cexp[d.ID]; ce != nil && ce.local != nil {
-					src.local = ce.local
+				if l := q.argLocals[q.argSlots[slot]]; l != nil {
+					src.local = l
 				} else {
 					return nil
 				}
